@@ -115,6 +115,24 @@ def holds_restricted_instance(x, depth=0):
     return False
 
 
+def holds_restricted_str_instance(x, depth=0):
+    """does a value hold an instance of a restricted STRING class (a `str` subclass)"""
+    if depth > 40:
+        return False
+    if isinstance(x, str):
+        return type(x) is not str and hasattr(type(x), "_regex")
+    if isinstance(x, dict):
+        return any(holds_restricted_str_instance(v, depth + 1) for v in x.values())
+    if isinstance(x, (list, tuple, set)):
+        return any(holds_restricted_str_instance(v, depth + 1) for v in x)
+    return False
+
+
+def multi_member_union(desc):
+    """a Union with at least two members other than None: a value converted by one member can be offered to another"""
+    return next(union_members(desc), None) is not None
+
+
 # ---------------------------------------------------------------- second pass on the real code
 def second_pass(p, cfg):
     """all observations of the fixed-point property for one accepted configuration (snapshots only)"""
@@ -124,6 +142,7 @@ def second_pass(p, cfg):
     first = canon(enc(cfg.k))
     out["first"] = first
     out["first_iter"] = enc(cfg.k, sort_sets=False)     # sets in their actual iteration order (input of the model's second pass)
+    out["first_rstr_instance"] = holds_restricted_str_instance(cfg.k)
     try:
         p.validate(cfg.clone())
         out["validate"] = "ok"
@@ -1344,6 +1363,9 @@ def run(ctx: Ctx):
                 "model's second pass / serialiser compared with the real ones; non-trivial = accepted non-null result whose first pass changed the "
                 "input (a conversion happened) or that is a container; distinct by canonical JSON of (type, result)")
     ctx.assumptions = list(c02_assumptions()) + [
+        "the model identifies an instance of a restricted string class with its text; the serialiser correspondence is therefore not compared "
+        "when the result holds such an instance AND the type has a Union with two non-None members (the code hands the str subclass to PyYAML's "
+        "C parser in a foreign member's branch, which raises TypeError); the real dump round trip is judged in every case",
         "parse-time links: a fixed parser (three int sources, two int targets, a subclass-typed argument with two int init_args) and a pool of 14 "
         "links; the definitions that link_arguments refuses are skipped - the fixed-point property is required of every set of links it accepts",
         "equality of configurations is judged on the typed canonical form (1, 1.0 and True are different values), stricter than Python ==",
@@ -1419,6 +1441,15 @@ def run(ctx: Ctx):
                 if multi:
                     # list(set) enumerates in an order that a copy of the set need not reproduce: not a disagreement
                     ctx.hist("set_order_dependent", what)
+                    continue
+                if what == "serialise" and sp.get("first_rstr_instance") and multi_member_union(desc):
+                    # OUTSIDE THE DOMAIN OF THE MODEL: the result holds an INSTANCE of a restricted string class (a `str`
+                    # subclass), which the model's `Val` identifies with its plain text.  When the serialiser of a Union offers
+                    # it to a FOREIGN member whose branch loads strings (int / float / bool / None leaves, Literal), the code
+                    # calls PyYAML's C parser on it, which refuses str SUBCLASSES with TypeError ("a string or stream input
+                    # is required"), so that member fails where the model (plain text) lets it load the text.  The real
+                    # outcome is still judged by the dump/parse/dump oracle above; only model-vs-code is not compared here.
+                    ctx.hist("outside_model", "serialise: restricted-str instance offered to a foreign Union member")
                     continue
                 bad.append({"what": what, "desc": desc, "value": sp["first"], "real": real, "model": mine, "from": [ch, inp]})
     # the model's prediction of dump -> parse for the cases whose dump cycle deviates
